@@ -8,6 +8,7 @@ mod env;
 mod registry;
 mod sc_entropy;
 mod courier;
+mod sc_crypt;
 mod sc_pok;
 mod sc_sign;
 mod sc_thresh;
